@@ -33,6 +33,8 @@ pub struct YieldStore {
     /// the n-th update_credential call (counted over all authenticators) is refused with this status
     fail_update: Option<(usize, u8)>,
     updates_seen: usize,
+    /// every update call as it reaches the store itself: (credential id, counter)
+    writes: Vec<(Vec<u8>, Option<u32>)>,
 }
 
 #[async_trait::async_trait]
@@ -50,6 +52,7 @@ impl CredentialStore for YieldStore {
         YieldN(self.yields).await;
         let n = self.updates_seen;
         self.updates_seen += 1;
+        self.writes.push((cred.credential_id.to_vec(), cred.counter));
         if let Some((k, code)) = self.fail_update {
             if k == n {
                 return Err(StatusCode::from(code));
@@ -76,6 +79,8 @@ pub struct Ev {
     pub kind: &'static str,
     pub begin: bool,
     pub cred: Option<Vec<u8>>,
+    /// update calls: the counter the authenticator hands to the shared store
+    pub counter: Option<u32>,
 }
 
 /// per-authenticator tagging wrapper around the shared lock wrapper: logs begin/end of each call
@@ -87,7 +92,7 @@ pub struct Tagged<W> {
 
 impl<W> Tagged<W> {
     fn ev(&self, kind: &'static str, begin: bool, cred: Option<Vec<u8>>) {
-        self.log.lock().unwrap().push(Ev { tag: self.tag, kind, begin, cred });
+        self.log.lock().unwrap().push(Ev { tag: self.tag, kind, begin, cred, counter: None });
     }
 }
 
@@ -109,7 +114,7 @@ impl<W: CredentialStore<PasskeyItem = Passkey> + Send + Sync> CredentialStore fo
     }
     async fn update_credential(&mut self, cred: Passkey) -> Result<(), StatusCode> {
         let id = cred.credential_id.to_vec();
-        self.ev("update", true, Some(id.clone()));
+        self.log.lock().unwrap().push(Ev { tag: self.tag, kind: "update", begin: true, cred: Some(id.clone()), counter: cred.counter });
         let r = self.inner.update_credential(cred).await;
         self.ev("update", false, Some(id));
         r
@@ -176,6 +181,8 @@ pub struct RunOut {
     pub deadlock: bool,
     pub events: Vec<Ev>,
     pub final_store: Vec<(Vec<u8>, Option<u32>)>,
+    /// update calls as they reached the store behind the lock wrapper
+    pub writes: Vec<(Vec<u8>, Option<u32>)>,
     pub choices: Vec<usize>,
     pub branching: Vec<usize>,
     pub switches: usize,
@@ -294,7 +301,7 @@ fn initial_store(cfg: &Config) -> YieldStore {
         let pk = make_passkey(60 + k as u64, RP, &held_id(k), Some(b"c19-user-held"), Some(cfg.counter), None);
         m.insert(pk.credential_id.to_vec(), pk);
     }
-    YieldStore { inner: m, yields: cfg.store_yields, disc: cfg.disc, fail_update: cfg.fail_update.map(|(k, c)| (k as usize, c)), updates_seen: 0 }
+    YieldStore { inner: m, yields: cfg.store_yields, disc: cfg.disc, fail_update: cfg.fail_update.map(|(k, c)| (k as usize, c)), updates_seen: 0, writes: vec![] }
 }
 
 /// run one schedule: at step i poll the `prefix[i]`-th runnable task (0 beyond the prefix)
@@ -345,6 +352,14 @@ pub fn run_schedule(cfg: &Config, prefix: &[usize]) -> Result<RunOut, String> {
     }
     let results: Vec<Option<Done>> = tasks.iter_mut().map(|t| t.output.take()).collect();
     drop(tasks);
+    let writes = if deadlock {
+        vec![]
+    } else {
+        match &shared {
+            Shared::M(s) => s.try_lock().map_err(|_| "lock still held after all ceremonies finished")?.writes.clone(),
+            Shared::R(s) => s.try_read().map_err(|_| "lock still held after all ceremonies finished")?.writes.clone(),
+        }
+    };
     let final_store: Vec<(Vec<u8>, Option<u32>)> = if deadlock {
         vec![]
     } else {
@@ -359,7 +374,7 @@ pub fn run_schedule(cfg: &Config, prefix: &[usize]) -> Result<RunOut, String> {
         }
     };
     let events = log.lock().unwrap().clone();
-    Ok(RunOut { results, deadlock, events, final_store, choices, branching, switches })
+    Ok(RunOut { results, deadlock, events, final_store, writes, choices, branching, switches })
 }
 
 /// the window [find begin, update end] of an assertion task in the event log
@@ -393,6 +408,26 @@ pub fn judge(cfg: &Config, out: &RunOut) -> Result<Verdict, String> {
         if let Some(Done::Registered { cred }) = r {
             if !out.final_store.iter().any(|(id, _)| id == cred) {
                 return Err(format!("the credential of successful registration #{t} is not in the store afterwards (store holds {} credentials)", out.final_store.len()));
+            }
+        }
+    }
+    // the lock wrappers hand every counter update to the shared store as the authenticator issued it, and an answered
+    // assertion reports the value it asked the store to hold (what "the largest reported value is the stored one" rests on)
+    {
+        let mut asked: Vec<(Vec<u8>, Option<u32>)> = out.events.iter().filter(|e| e.kind == "update" && e.begin).map(|e| (e.cred.clone().unwrap_or_default(), e.counter)).collect();
+        let mut reached = out.writes.clone();
+        asked.sort();
+        reached.sort();
+        if asked != reached {
+            let show = |v: &[(Vec<u8>, Option<u32>)]| v.iter().map(|(_, c)| format!("{c:?}")).collect::<Vec<_>>().join(", ");
+            return Err(format!("the authenticators asked the shared store to hold the counters [{}], the store behind the lock wrapper received [{}] (schedule {:?})", show(&asked), show(&reached), out.choices));
+        }
+        for (t, r) in out.results.iter().enumerate() {
+            if let Some(Done::Asserted { counter, .. }) = r {
+                let mine: Vec<Option<u32>> = out.events.iter().filter(|e| e.tag == t && e.kind == "update" && e.begin).map(|e| e.counter).collect();
+                if !mine.is_empty() && mine != vec![Some(*counter)] {
+                    return Err(format!("assertion #{t} reports counter {counter} but asked the store to hold {mine:?}"));
+                }
             }
         }
     }
@@ -570,7 +605,13 @@ fn check_generated(ctx: &mut Ctx, case: &(Config, Vec<u8>)) -> Result<(), String
 
 fn config(max_tasks: usize) -> impl Strategy<Value = Config> {
     let cer = prop_oneof![6 => (0u8..2, proptest::bool::weighted(0.8)).prop_map(|(cred, allow)| Cer::Assert { cred, allow }), 4 => (0u8..2).prop_map(|user| Cer::Register { user }), 1 => Just(Cer::RegisterExcluded), 2 => (0u8..2).prop_map(|cred| Cer::AssertRefused { cred }), 2 => (0u8..2).prop_map(|cred| Cer::AssertSilent { cred })];
-    (prop_oneof![Just(Lock::ArcMutex), Just(Lock::ArcRwLock)], 0usize..3, proptest::collection::vec(0usize..4, 3), proptest::collection::vec(cer, 2..=max_tasks), prop_oneof![Just(5u32), Just(0), Just(1_000_000), Just((1u32 << 31) - 2), Just((1u32 << 31) - 1), Just(3_000_000_000), Just(u32::MAX - 3)]).prop_map(|(lock, store_yields, uv_yields, cers, counter)| Config { lock, store_yields, disc: (uv_yields.iter().sum::<usize>() % 3) as u8, fail_update: (uv_yields[0] == 3).then_some(((uv_yields[1] % 3) as u8, [0x28u8, 0x7F, 0x01][uv_yields[2] % 3])), uv_yields, cers, counter })
+    (prop_oneof![Just(Lock::ArcMutex), Just(Lock::ArcRwLock)], 0usize..3, proptest::collection::vec(0usize..4, 3), proptest::collection::vec(cer, 2..=max_tasks), prop_oneof![Just(5u32), Just(0), Just(1_000_000), Just((1u32 << 31) - 2), Just((1u32 << 31) - 1), Just(3_000_000_000), Just(u32::MAX - 3), Just(u32::MAX - 2)]).prop_map(|(lock, store_yields, uv_yields, mut cers, counter)| {
+        // from 2^32-3 only two ceremonies (a third assertion would repeat the maximum, which is C08's subject)
+        if counter == u32::MAX - 2 {
+            cers.truncate(2);
+        }
+        Config { lock, store_yields, disc: (uv_yields.iter().sum::<usize>() % 3) as u8, fail_update: (uv_yields[0] == 3).then_some(((uv_yields[1] % 3) as u8, [0x28u8, 0x7F, 0x01][uv_yields[2] % 3])), uv_yields, cers, counter }
+    })
 }
 
 pub fn run(ctx: &mut Ctx) {
@@ -612,7 +653,8 @@ pub fn run(ctx: &mut Ctx) {
     }
     // start counters in the upper half of the range (sequential and interleaved assertion pairs)
     for lock in [Lock::ArcMutex, Lock::ArcRwLock] {
-        for counter in [(1u32 << 31) - 2, (1u32 << 31) - 1, 3_000_000_000, u32::MAX - 3] {
+        // (two assertions from 2^32-3 end at the maximum itself; from there on values repeat, which C08 covers)
+        for counter in [(1u32 << 31) - 2, (1u32 << 31) - 1, 3_000_000_000, u32::MAX - 3, u32::MAX - 2] {
             for uy in 0..=1usize {
                 exhaustive_cfgs.push(Config { lock, store_yields: 0, uv_yields: vec![uy, 0, 0], cers: vec![Cer::Assert { cred: 0, allow: true }, Cer::Assert { cred: 0, allow: true }], counter, disc: 0, fail_update: None });
             }
